@@ -61,7 +61,7 @@ def main():
                 "quick_cmd": f"./check {pid} --tier quick",
                 "thorough_cmd": f"./check {pid} --tier thorough",
                 "evidence_file": f"/verif/evidence/{pid}.json",
-                "replay_cmd_template": "./replay {path}",
+                "replay_cmd_template": "./replay-trace {path}",
                 "engine": "E1-kani",
                 "level_claimed": {"category": lvl, "text": text, "design_ref": f"DESIGN.md §6 {pid}"},
                 "level_note": note,
